@@ -183,7 +183,7 @@ CHECKS['C11'] = dict(
     rule='the workloads of C01-C10 (same generators: bounded-exhaustive tree shapes and hash-array images, index sweeps, random histories) executed on a gcc ASan+UBSan+LSan build in recover mode; '
          'all caller keys/values live in exactly-sized heap blocks (keys also at odd offsets inside a block), are scribbled and freed right after each call; the allocation ledger must be empty when a container is released; '
          'the static hash table region lies between 64 KiB ASan-poisoned guard zones; every 61st state check also runs the debug() printer of the container on the real contents; optional out-parameters are NULL in a quarter of the calls. evaluation = one container operation executed under the sanitizers; '
-         'a functional mismatch abandons the history (decided by C01-C10). distinct = distinct container states reached (per-harness definition, summed).',
+         'a functional mismatch abandons the history (decided by C01-C10). distinct = distinct container states reached (per-harness definition, summed).' ' Also h_scale under the same sanitizers: every container kind with 20 011 elements (120 011 thorough) through build / thinning / churn / drain / reuse, tree keys of 64 KiB, vectors of 3 MiB and 16 MiB elements.',
     require=['containers_released', 'containers_released_leak_free', 'histories_completed', 'exhaustive_shapes', 'exhaustive_images', 'sweep_cells'],
     assumptions=['gcc 12 libasan/libubsan/liblsan; UBSan nonnull-attribute check off (memcpy(p, NULL, 0))',
                  'ASan red zones miss non-adjacent and intra-object overflows; the static table is additionally guarded by poisoned 64 KiB zones, intra-object effects by the functional oracles',
@@ -283,7 +283,7 @@ CHECKS['C15'] = dict(
     jobs=c15_jobs, evidence=c15_evidence,
     rule='enumeration: for every allocating operation x every state of a corpus x failure injected at the k-th allocation made inside the call (k = 1..K measured by a dry run; single failure and all-subsequent-fail): '
          'the call must either complete correctly or report failure; after a reported failure the full content/counter comparison with the model (not updated) must hold; in every case the structural walker, a battery of normal operations, '
-         'the allocation ledger at free() and ASan/UBSan must be clean, the process must not crash, and for containers built thread-safe (every other configuration) a second thread must be able to take the container lock right after the call; list tables additionally: save()/load() on real (memfd) files - a save reported as success must contain every entry - and the option flags (unique, case, sorted, inserttop, lookupforward) must be what they were. distinct = distinct (state, operation, key/variant, k, mode) tuples.',
+         'the allocation ledger at free() and ASan/UBSan must be clean, the process must not crash, and for containers built thread-safe (every other configuration) a second thread must be able to take the container lock right after the call; list tables additionally: save()/load() on real (memfd) files - a save reported as success must contain every entry - and the option flags (unique, case, sorted, inserttop, lookupforward) must be what they were. distinct = distinct (state, operation, key/variant, k, mode) tuples.' ' Every copying walk also has a variant that repeats the call with the same cursor after the reported failure and must deliver the sequence of an undisturbed walk; vector operations on three elements of 16 MiB.',
     exhaustive=True,
     require=['fault_positions_injected', 'oom_reported_failure', 'lock_probes_from_a_second_thread', 'walks_resumed_after_a_reported_allocation_failure', 'huge_element_operations'],
     assumptions=['allocation failures are injected through the malloc/calloc/realloc/strdup link-time interposers (NULL + errno=ENOMEM)',
@@ -318,7 +318,7 @@ CHECKS['C13'] = dict(
          'on tree, hash, unique list table, list, queue, stack, vector created thread-safe; each program is run under every schedule (depth-first over the choices at outermost lock acquire / after release / allocator calls / usleep; '
          'a worker waiting for an owned mutex is disabled) when that fits the budget, else under budget DFS + budget random schedules; every history (invocation/response stamps, results, final contents) is searched for a linearization (Wing-Gong, memoised). '
          'stress mode: 4-8 truly concurrent threads with random delays at the same points, unique values; maps checked per key (P-compositionality), sequences by conservation / no-duplicate / not-from-the-future / per-producer FIFO rules (copying gets included), ordered lookups of the tree by a stored-by-an-earlier-put rule; the same workload on a TSan build. '
-         'evaluation = one schedule executed (controlled) or one operation (stress); distinct = distinct schedules (choice sequences) + distinct stress outcome vectors.',
+         'evaluation = one schedule executed (controlled) or one operation (stress); distinct = distinct schedules (choice sequences) + distinct stress outcome vectors.' ' Long hold: per container kind one thread stays inside lock()..unlock() and walks twice while a writer fails 12000 lock polls; the writer must not complete before the unlock and both walks must agree.',
     require=['schedules_executed', 'programs_enumerated_exhaustively', 'histories_linearizable', 'stress_histories', 'stress_histories_raced_under_tsan', 'long_hold_scenarios'],
     san_ignore=None,
     assumptions=['pre-emption is injected only at outermost lock acquisition/release, library allocator calls and usleep; races between two unlocked accesses inside one segment are visible only to TSan on the stress runs',
@@ -333,7 +333,7 @@ CHECKS['C16'] = dict(
     rule='evaluation = one byte string taken through URL, Base64 and hex: encode, format predicate (URL: only printable ASCII outside % + & = ? # " < > literally, every literal equal to the input byte, every other byte as %hh of that byte; '
          'Base64 equal to an independent RFC 4648 encoder; hex two lowercase digits per byte), decode(encode(x)) == x with exact length, decoder leniency (upper-case hex, + for space); or one query list of 0-12 pairs over bytes 1-255 '
          '(empty names/values included, separators & or ; and =) assembled from encoded parts and parsed back, compared in chain order. Exhaustive over all byte strings of length 0..2 (quick) / 0..3 (thorough); random lengths to 4096. '
-         'distinct = distinct input strings (lengths <= 2 and random) + query lists.',
+         'distinct = distinct input strings (lengths <= 2 and random) + query lists.' ' Long strings of 65535..4 MiB+1 bytes through all three codecs; thorough: 2^31+300 bytes through Base64 and 2^31+16 bytes through hex, checked block-wise.',
     exhaustive=lambda res, tier: False,
     require=['exhaustive_strings', 'random_strings', 'query_lists', 'url_strings', 'base64_strings', 'hex_strings', 'long_strings'],
     assumptions=['reference Base64 encoder in h_codec.c, self-tested against the RFC 4648 section 10 vectors at start-up'])
@@ -345,7 +345,7 @@ CHECKS['C18'] = dict(
     rule='evaluation = one (length, alignment, content class) cell: the bytes are placed so that they end exactly at the end of their heap block with the slack in front ASan-poisoned, hashed with qhashmd5, qhashmurmur3_32, '
          'qhashmurmur3_128, qhashfnv1_32, qhashfnv1_64 (result buffers at arbitrary alignment) and compared with independent byte-wise references; then hashed again at another address/alignment with different bytes behind the buffer (results must agree). '
          'Cell grid: every length 1..600 x 8 alignments x {random, all-zero, all-0xff, embedded NULs, high-bit}, complete in every run; plus random sizes up to 1 MiB and qhashmd5_file over files of 0/1/32767/32768/32769/102400 bytes with whole/to-end/inner/out-of-range (offset, length) requests. '
-         'thorough tier only: MD5 of one buffer of 2^32+5 bytes, both Murmur3 functions on 2^31+1 bytes (lengths and block counts that do not fit 32 bits / an int), and MD5 of five ranges of a sparse 512 MiB+4133-byte file (the bit counter of the digest wraps while the file is fed in pieces). Every tier: four threads hashing different buffers and files at once, and the whole sparse file once. distinct = distinct cells + file requests.',
+         'thorough tier only: MD5 of one buffer of 2^32+5 bytes, both Murmur3 functions on 2^31+1 bytes (lengths and block counts that do not fit 32 bits / an int), and MD5 of five ranges of a sparse 512 MiB+4133-byte file (the bit counter of the digest wraps while the file is fed in pieces). Every tier: four threads hashing different buffers and files at once, and the whole sparse file once. distinct = distinct cells + file requests.' ' File ranges also on files of 1 MiB+777 and 5 MiB+13 bytes (ranges of 256 KiB and more at unaligned offsets).',
     exhaustive=True,
     require=['cells', 'large_sizes', 'file_ranges_in_range', 'file_ranges_out_of_range'],
     assumptions=['references in refs/ref_hash.c written from RFC 1321 / MurmurHash3 / FNV-1 descriptions, validated at start-up against published vectors',
@@ -358,7 +358,7 @@ CHECKS['C19'] = dict(
     rule='evaluation = one call compared with an independently written reference definition: qstrtrim/_head/_tail over exactly {space,tab,CR,LF} (the alphabet contains VT, FF, 0x80 as non-blanks); qstrreplace tn/tr/sn/sr (token mode: each listed character -> word; string mode: leftmost non-overlapping occurrences; '
          'in-place buffers sized max(|src|,|result|)+1); qstrcpy/qstrncpy = first min(n,size-1) bytes + NUL for every size 1..n+2 and nbytes 0..n between guard bytes, overlapping source; qstrtok by field list and exact reconstruction (neutral on a final empty field), '
          'qstrtokenizer = that list; qstrgets with big (exact lines) and small buffers (pieces concatenate to the CR/LF-free text); qstrunchar, qstrrev, qstrupper/lower (ASCII only), qstrdup_between, qmemdup; qstrdupf/qstrcatf = the vsnprintf result for every length 0..80 and 2^k-3..2^k+3 (k = 8..14, thorough 17: the growth steps of the internal buffer), appended into exact room + guard bytes. All strings up to length 5 (quick) / 7 (thorough) over the significant alphabets, '
-         'all (src,token,word) triples over {a,b,:}, random inputs to 2 KiB; exact-size heap blocks under ASan/UBSan. distinct = distinct (function group, input) pairs.',
+         'all (src,token,word) triples over {a,b,:}, random inputs to 2 KiB; exact-size heap blocks under ASan/UBSan. distinct = distinct (function group, input) pairs.' ' qstrreplace additionally on long inputs (length products around 2^31 and 2^32, in-place results growing past 4 KiB, 50000 deletions).',
     require=['calls:qstrtrim', 'calls:qstrtrim_head', 'calls:qstrtrim_tail', 'calls:qstrunchar', 'calls:qstrrev', 'calls:qstrupper', 'calls:qstrlower', 'calls:qmemdup', 'calls:qstrcpy', 'calls:qstrncpy',
              'calls:qstrgets', 'calls:qstrtok', 'calls:qstrtokenizer', 'calls:qstrreplace', 'calls:qstrdup_between', 'replace_triples', 'random_inputs', 'format_lengths', 'replace_large_inputs'],
     assumptions=['reference definitions in h_string.c; empty search tokens for qstrreplace and nbytes > strlen(src) for qstrncpy are outside the domain', 'gcc 12 ASan/UBSan'])
@@ -391,7 +391,7 @@ CHECKS['C20'] = dict(
          'INI: entries, comments, blank lines, sections incl. [] and blanks, separator inside values, ${key} (plain and section-qualified, latest definition), nested ${a${b}} resolved innermost-first, references that do not resolve (kept as written), ${} and ${%}, ${%ENV} set/unset, redefinitions, CRLF, parse_str and parse_file with @INCLUDE side files; '
          'oracle = the ordered (name, value) chain. Apache style: random option tables (take 0-7/TAKEALL, per-argument and default types, section ids, scopes ALL/ROOT/user, NULL callbacks + default handler), nesting depth <= 6, bare/single/double quoting with escapes, '
          'tab/space layout incl. blanks before the closing bracket of a tag, comments, all boolean spellings in random case, int/float forms, CASEINSENSITIVE / IGNOREUNKNOWN; every third document carries one fault (wrong count, wrong type at any position incl. beyond the fifth, wrong scope, unknown directive, unclosed or mismatched section); '
-         'oracle = callback stream (otype, section, sections, level, argv after unquoting and bool normalisation, parent chain; close callbacks carry the opening data), return count, rejection with path:line. evaluation = one document; distinct = distinct expected results.',
+         'oracle = callback stream (otype, section, sections, level, argv after unquoting and bool normalisation, parent chain; close callbacks carry the opening data), return count, rejection with path:line. evaluation = one document; distinct = distinct expected results.' ' Every twelfth Apache document carries string arguments of 1000..6000 characters (lines beyond 4 KiB); every twentieth INI document has one value with 64..300 distinct references, repeated references and a chain of 70..200 definitions.',
     require=['ini_documents_parse_file', 'ini_documents_parse_str', 'ini_entries_compared', 'callbacks_compared', 'apache_documents_accepted_by_reference',
              'apache_documents_rejected_by_reference', 'apache_fault:count', 'apache_fault:type', 'apache_fault:scope', 'apache_fault:unclosed', 'apache_fault:mismatch', 'apache_fault:unknown'],
     assumptions=['reference semantics in refs/gen_conf.py follow the doc comments of qconfig.c / qaconf.c and examples/; undocumented forms are not generated (lines without separator, undefined ${name}, ${!cmd}, blanks before ">", +signed numbers, callbacks inside unknown sections)',
@@ -489,7 +489,7 @@ CHECKS['C17'] = dict(
     rule='evaluation = one call of qurl_decode / qbase64_decode / qhex_decode / qparse_queries / qconfig_parse_str / qconfig_parse_file / qaconf parse on an input in an exactly-sized heap buffer (file parsers: memfd or scratch file) '
          'under ASan+UBSan with a 2 s CPU budget, allocation-count budget (20000; INI parser 4000+|input|/4) and live-bytes budget 64*|input|+64 MiB+|input|^2 (replacement buffers are sized for the worst case, quadratic in the input); in-place decoders additionally: returned length <= input length and NUL at that length. '
          'Inputs: (a) every string up to length L (quick 5, thorough 7; hex L+1, INI file form L-1) over the significant bytes of each format; (b) generated INI / Apache-style documents (refs/gen_conf.py) and random decoder inputs, mutated: truncate, duplicate, delete, bit flips, '
-         'inserted quotes/brackets/escapes, trailing backslash, 4095/4096/9000-byte lines, self- and mutually-referential ${..}, hostile @INCLUDE (missing, empty, over-long, and blank-padded lines of 3000-6000 bytes, concentrated on 4078..4101, that name an existing file), 200-20000 unclosed section tags in a row (Apache-style documents), an INI file that includes itself. ${!cmd} is neutralised by a popen interposer. distinct = distinct inputs.',
+         'inserted quotes/brackets/escapes, trailing backslash, 4095/4096/9000-byte lines, self- and mutually-referential ${..}, hostile @INCLUDE (missing, empty, over-long, and blank-padded lines of 3000-6000 bytes, concentrated on 4078..4101, that name an existing file), 200-20000 unclosed section tags in a row (Apache-style documents), an INI file that includes itself. ${!cmd} is neutralised by a popen interposer. distinct = distinct inputs.' ' One mutation appends a line of 70000 / 1 MiB / 4 MiB bytes that references a 300..8192-byte value (expansion sizes around 2^31 and 2^32).',
     require=['inputs:qurl_decode', 'inputs:qbase64_decode', 'inputs:qhex_decode', 'inputs:qparse_queries', 'inputs:qconfig_parse_str', 'inputs:qconfig_parse_file', 'inputs:qaconf_parse',
              'mutated_documents', 'long_include_lines_naming_an_existing_file', 'deeply_nested_section_documents', 'self_including_documents', 'long_reference_lines', 'branch:url_escape_at_end', 'branch:hex_odd_length', 'branch:apache_unclosed_quote', 'branch:apache_unclosed_section', 'branch:ini_cyclic_reference', 'branch:ini_include',
              'results_delivered', 'errors_reported'],
